@@ -1,8 +1,29 @@
 (* C08 - Arbitrary bytes never cause memory-unsafe or undefined behaviour in decoding (partial: the
    byte-level contract is proved on the model; absence of UB in the binary is sanitizer-backed). *)
 From RS Require Import Base.Tac Base.Bytes Base.Dyadic Model.Desc Model.Kernels Model.Decoder Model.Driver Model.Input Gen.Params_gen.
-From RS Require Import Gen.Kernels_gen Proofs.SplitNum Proofs.Coords Proofs.Conservation Proofs.Layout Proofs.Eq_Trigon Proofs.Eq_Copy.
+From RS Require Import Gen.Kernels_gen Proofs.SplitNum Proofs.Coords Proofs.Conservation Proofs.Layout Proofs.Eq_Trigon Proofs.Eq_Copy Proofs.Footprint.
 Local Open Scope Z_scope.
+
+(* T1: read footprint. What a decoder computes from an accepted packet depends on the bytes of that packet only: for each of the
+   17 regenerated descriptors, every configuration and state, a packet followed in memory by ARBITRARY other bytes decodes exactly as
+   the packet alone - same state, same points in the same blocks, same frame boundaries, same bad-block verdict. (The model's
+   readers are total; this is the form "never reads outside the packet" takes for it. More generally any two byte strings that
+   agree on the accepted length decode alike: Proofs/Footprint.v.) *)
+Theorem C08_T1_mech_reads_inside_packet d c s b junk h1 h2 : In d all_descs -> d_family d = Mech -> blen b = d_msop_len d ->
+  let r := decode_msop_mech d c s b h1 h2 in
+  let r' := decode_msop_mech d c s (b ++ junk) h1 h2 in
+  mr_state r = mr_state r' /\ mr_blocks r = mr_blocks r' /\ mr_ret r = mr_ret r' /\ mr_bad_blkid r = mr_bad_blkid r' /\ mr_end_split r = mr_end_split r'.
+Proof. exact (mech_packet_alone d c s b junk h1 h2). Qed.
+Print Assumptions C08_T1_mech_reads_inside_packet.
+(* ... and for the MEMS types, per (sub-)packet at offset base (jumbo: 63 sub packets of sub_size bytes) *)
+Theorem C08_T1_mems_reads_inside_packet d c s b junk base h1 h2 : In d all_descs -> d_family d = Mems -> 0 <= base -> base + sub_size d <= blen b ->
+  let r := decode_msop_mems_sub d c s b base h1 h2 in
+  let r' := decode_msop_mems_sub d c s (b ++ junk) base h1 h2 in
+  fst (fst (fst r)) = fst (fst (fst r')) /\ snd (fst (fst r)) = snd (fst (fst r')) /\ snd r = snd r'.
+Proof. exact (mems_sub_alone d c s b junk base h1 h2). Qed.
+(* the layout facts the footprint rests on hold for every regenerated descriptor *)
+Theorem C08_T1_descriptors_ok : forallb (fun d => msop_layout_ok d && nonneg_ok d && iters_ok d) all_descs = true.
+Proof. exact all_descs_footprint_ok. Qed.
 
 (* T2: for all 17 regenerated descriptors: sizeof(packet struct) = accepted length; header, block,
    channel and sub-packet fields lie inside it; DIFOP fields inside the DIFOP length; channel/laser
